@@ -104,6 +104,18 @@ func (P *Program) verifyFunc(fn *ssa.Function, fc *FuncContract, mode Mode) *Fun
 			c.assume(fmt.Sprintf("(not (= (pobj %s) 0))", v.T))
 		}
 	}
+	// captured variables are distinct allocations
+	for i, a := range fn.FreeVars {
+		for _, b := range fn.FreeVars[i+1:] {
+			if _, ok := a.Type().Underlying().(*types.Pointer); !ok {
+				continue
+			}
+			if _, ok := b.Type().Underlying().(*types.Pointer); !ok {
+				continue
+			}
+			c.assume(fmt.Sprintf("(not (= (pobj %s) (pobj %s)))", fr.vals[a].T, fr.vals[b].T))
+		}
+	}
 	env := fr.specEnv(st0, nil)
 	for _, r := range fc.Requires {
 		c.assume(env.trBool(r.Expr))
@@ -153,7 +165,8 @@ func (P *Program) verifyFunc(fn *ssa.Function, fc *FuncContract, mode Mode) *Fun
 		for _, e := range fc.Ensures {
 			v := post.trBool(e.Expr)
 			o := fr.oblige("ensures", e.Label+suffix, propsOr(e.Props, fc.Props), v, e.Text, r.pos)
-			o.Using = e.Using
+			o.Using, o.Extra = c.splitUsing(post, e.Using)
+			o.Expr = e.Expr
 		}
 		for _, ic := range ifcs {
 			p2 := selfEnv(post)
@@ -162,7 +175,7 @@ func (P *Program) verifyFunc(fn *ssa.Function, fc *FuncContract, mode Mode) *Fun
 			for _, e := range ic.C.Ensures {
 				v := p2.trBool(e.Expr)
 				o := fr.oblige("ensures", "iface:"+ic.Iface+"."+ic.Method+":"+e.Label+suffix, propsOr(e.Props, propsOr(ic.C.Props, fc.Props)), v, e.Text, r.pos)
-				o.Using = e.Using
+				o.Using, o.Extra = c.splitUsing(p2, e.Using)
 			}
 		}
 		// frame
@@ -227,7 +240,8 @@ func (P *Program) verifyLemma(lm *Lemma) *FuncResult {
 		ih := c.lemmaFormula(lm, lm.Induct, vars[lm.Induct].T)
 		c.assume(ih)
 	}
-	for _, u := range lm.Using {
+	lnames, lextra := c.splitUsing(env, lm.Using)
+	for _, u := range lnames {
 		c.lemmasUsed[u] = true
 	}
 	for i, e := range lm.Ensures {
@@ -235,7 +249,7 @@ func (P *Program) verifyLemma(lm *Lemma) *FuncResult {
 		if label == "" {
 			label = fmt.Sprintf("%d", i+1)
 		}
-		o := &Obligation{Name: res.Func + "/lemma[" + label + "]", Kind: "lemma", Props: lm.Props, Text: e.Text, Func: res.Func, prefix: len(c.cmds), goal: env.trBool(e.Expr), ctx: c, Using: lm.Using}
+		o := &Obligation{Name: res.Func + "/lemma[" + label + "]", Kind: "lemma", Props: lm.Props, Text: e.Text, Func: res.Func, prefix: len(c.cmds), goal: env.trBool(e.Expr), ctx: c, Using: lnames, Extra: lextra}
 		c.obls = append(c.obls, o)
 	}
 	res.Obls = c.obls
@@ -304,4 +318,52 @@ func (c *Ctx) lemmaAxioms(names []string, heapSubst func(string) string) []strin
 		out = append(out, "(assert "+f+")")
 	}
 	return out
+}
+
+// splitUsing separates `using` items into plain lemma names (added as
+// quantified axioms) and instantiations L(args), translated in env.
+func (c *Ctx) splitUsing(env *SpecEnv, items []string) (names []string, extra []string) {
+	for _, it := range items {
+		if !strings.Contains(it, "(") {
+			names = append(names, it)
+			continue
+		}
+		e, err := parseExpr(it)
+		if err != nil {
+			c.errs = append(c.errs, "using: "+err.Error())
+			continue
+		}
+		call, ok := e.(*ECall)
+		if !ok {
+			c.errs = append(c.errs, "using: expected L(args): "+it)
+			continue
+		}
+		id, _ := call.Fun.(*EIdent)
+		var lm *Lemma
+		if id != nil {
+			for k, l := range c.prog.Contracts.Lemmas {
+				if strings.HasSuffix(k, "::"+id.Name) {
+					lm = l
+				}
+			}
+		}
+		if lm == nil || len(call.Args) != len(lm.Params) {
+			c.errs = append(c.errs, "using: unknown lemma or arity: "+it)
+			continue
+		}
+		sub := &SpecEnv{c: c, fr: env.fr, vars: map[string]Val{}, st: env.st, old: env.old, oldAlloc: env.oldAlloc, pkg: c.prog.TypesPkgs[lm.Pkg], loop: env.loop}
+		for i, p := range lm.Params {
+			sub.vars[p.Name] = env.tr(call.Args[i])
+		}
+		var req, ens []string
+		for _, r := range lm.Requires {
+			req = append(req, sub.trBool(r.Expr))
+		}
+		for _, r := range lm.Ensures {
+			ens = append(ens, sub.trBool(r.Expr))
+		}
+		extra = append(extra, "(assert "+implies(and(req...), and(ens...))+")")
+		c.lemmasUsed[lm.Name] = true
+	}
+	return
 }
